@@ -29,6 +29,11 @@ func ValueOf(query *Query, current Map, any any) (any, error) {
 				// }
 				return nil, err
 			}
+			// the name of a CTE that has not been read yet: its value is
+			// its rows, never the thunk that produces them
+			if cte, ok := rs.(CteEvaluation); ok {
+				return cte()
+			}
 			return rs, nil
 		}
 	case NeutalString:
